@@ -89,7 +89,7 @@ var chainArgs4 = map[string][][]string{
 var chainArgs6 = map[string][][]string{
 	"server_id":     {{"LL", "00:de:ad:be:ef:00"}},
 	"file":          {{"@lease6"}},
-	"prefix":        {{"2001:db8:0:1000::/60", "64"}, {"2001:db8:0:1000::/62", "64"}, {"2001:db8:0:1000::/60", "62"}},
+	"prefix":        {{"2001:db8:0:1000::/60", "64"}, {"2001:db8:0:1000::/62", "64"}, {"2001:db8:0:1000::/60", "62"}, {"2001:db8:0:1000::/64", "64"}},
 	"dns":           {{"2001:4860:4860::8888", "2001:4860:4860::8844"}},
 	"searchdomains": {{"a.example", "b.example.org"}},
 	"nbp":           {{"http://[2001:db8:a::1]/nbp"}, {"tftp://[2001:db8:a::1]/nbp?params=a%20b"}},
